@@ -2163,3 +2163,14 @@ Proof.
 Qed.
 
 End Commute5.
+
+(* Nested static trees of ONE creator: parent first makes the child a no-op, child first makes the
+   parent an error ("parent directory of an existing static tree"); documented in
+   DirectorHandler.declare_static and asserted by tests/test_workflow.py::test_static_tree_subdir. *)
+Lemma same_creator_nested_trees_refuted :
+  let r1 := RqTree (CStep w_B) w_d in
+  let r2 := RqTree (CStep w_B) (w_d ++ s2l "/sub"%string)%list in
+  accepted (step w_gm false false w_boot r1) = true /\ accepted (step w_gm false false w_boot r2) = true /\
+  accepted (run w_gm false false w_boot [r1; r2]) = true /\
+  run w_gm false false w_boot [r2; r1] = Err (MTreeParent (w_d ++ [47])%list).
+Proof. vm_compute. repeat split; reflexivity. Qed.
